@@ -112,6 +112,14 @@ MUTS = [
     ('SF4', 'change', 'C10', B, "                         if i in subset_indices]", "                         if i not in subset_indices]"),
     ('SF5', 'preserve', 'C10', B, "if min(subset_indices) < 0:", "if 0 > min(subset_indices):"),
     ('SF6', 'unsupported', 'C10', B, "n_subsets = len(set(subset_indices))", "n_subsets = len(frozenset(subset_indices))"),
+    # dataquery.py NodePath.__str__ / slice_to_str (round 2)
+    ('SG1', 'change', 'C15', Q, "else '@{}'.format(self.slice_to_str(self.subset_slice))", "else '#{}'.format(self.slice_to_str(self.subset_slice))"),
+    ('SG2', 'change', 'C15', Q, "slc.stop if slc.stop is not None else '',", "slc.stop if slc.stop is not None else '0',"),
+    ('SG3', 'change', 'C15', Q, "component.separator, component.id, self.slice_to_str(component.slice)", "component.id, component.separator, self.slice_to_str(component.slice)"),
+    ('SG4', 'change', 'C15', Q, "else '[{}:{}:{}]'.format(", "else '[{}:{}:{}:]'.format("),
+    ('SG5', 'preserve', 'C15', Q, "ret = '' if self.subset_slice is None else '@{}'.format(self.slice_to_str(self.subset_slice))",
+     "ret = '@{}'.format(self.slice_to_str(self.subset_slice)) if self.subset_slice is not None else ''"),
+    ('SG6', 'unsupported', 'C15', Q, "return '[{}]'.format(slc) if not", "return '[%s]' % slc if not"),
     # ---- stage D: the whole NodePathParser of dataquery.py (stateful class, C15_src_parse_eq) ----------------
     ('D1', 'change', 'C15', Q, "                if self.current_state == STATE_START_PARSING:\n                    self.current_state = STATE_START_SUBSET\n",
      "                if True:\n                    self.current_state = STATE_START_SUBSET\n"),
